@@ -27,6 +27,10 @@
 (* consecutive filter types occurs.  TLC reconstructs the rows, checks that *)
 (* the encoder-side filter maps them back to the filtered bytes (the two     *)
 (* directions are inverse), and exports <<filtered bytes, expected pixels>> *)
+(* A third family ("raw" mode) starts from the PIXEL side: the rows are     *)
+(* drawn from {0, 2, 4, 126, 128, 130, 255}, where a is often the exact      *)
+(* midpoint of b and c (the Paeth tie pb = pc) and a + b is often odd (the   *)
+(* Average rounding), and the filtered bytes are computed with FilterRow.    *)
 (* for the real std/png, which gets them as a PNG file built around the     *)
 (* filtered bytes (harness/cmd/fmtcases).                                   *)
 (***************************************************************************)
@@ -36,9 +40,12 @@ CONSTANTS Widths,        \* image widths in pixels, e.g. {1, 2, 3, 4}
           Bpps,          \* bytes per pixel, subset of {1, 2, 3, 4}
           Fills,         \* fill numbers, e.g. {1} or {1, 2, 3}: different pseudo-random contents per shape
           LongFills,     \* fill numbers for the 127-row images ({} = none)
+          RawFills,      \* fill numbers for the pixel-side ("raw") 2-row images with Average/Paeth in the second row
+          TieModes,      \* subset of {"tieBC", "tieAC"}: 2-row images whose second row is a Paeth tie in every byte
           Seed           \* VERIF_SEED modulo 65521
 
 Alphabet5 == <<0, 1, 127, 128, 255>>
+AlphabetRaw == <<0, 2, 4, 126, 128, 130, 255>>
 FilterTypes == 0..4
 
 Abs(v) == IF v < 0 THEN 0 - v ELSE v
@@ -92,30 +99,54 @@ ASSUME \A t \in [1..3 -> FilterTypes] : \E i \in 1..(Len(DeBruijn) - 2) : \A j \
 \* rotate so that different long images start with different filter types
 Rotated(k) == [i \in 1..Len(DeBruijn) |-> DeBruijn[((i - 1 + 25 * k) % 125) + 1]]
 
-Shapes == { [w |-> w, bpp |-> b, fts |-> <<f1, f2>>, fill |-> k, long |-> FALSE] : w \in Widths, b \in Bpps, f1 \in FilterTypes, f2 \in FilterTypes, k \in Fills }
-          \cup { [w |-> w, bpp |-> b, fts |-> Rotated(k), fill |-> k, long |-> TRUE] : w \in Widths, b \in Bpps, k \in LongFills }
+Shapes == { [w |-> w, bpp |-> b, fts |-> <<f1, f2>>, fill |-> k, mode |-> "filt"] : w \in Widths, b \in Bpps, f1 \in FilterTypes, f2 \in FilterTypes, k \in Fills }
+          \cup { [w |-> w, bpp |-> b, fts |-> Rotated(k), fill |-> k, mode |-> "filt"] : w \in Widths, b \in Bpps, k \in LongFills }
+          \cup { [w |-> w, bpp |-> b, fts |-> <<f1, f2>>, fill |-> k, mode |-> "raw"] : w \in Widths, b \in Bpps, f1 \in FilterTypes, f2 \in {3, 4}, k \in RawFills }
+          \cup { [w |-> w, bpp |-> b, fts |-> Rotated(k + 2), fill |-> k, mode |-> "raw"] : w \in Widths, b \in Bpps, k \in RawFills \cap LongFills }
+          \cup { [w |-> w, bpp |-> b, fts |-> <<f1, 4>>, fill |-> 0, mode |-> m] : w \in Widths \ {1}, b \in Bpps, f1 \in FilterTypes, m \in TieModes }
 
-\* filtered bytes of a shape: a pseudo-random walk over the alphabet
-FiltBytes(sh) ==
+\* bytes of a shape (the filtered bytes in "filt" mode, the pixels in "raw" mode): a pseudo-random walk over the alphabet
+RandomRows(sh, alphabet) ==
     LET nrow == sh.w * sh.bpp
-        s0 == ((Seed % 65521) * 31 + sh.w * 1009 + sh.bpp * 4001 + sh.fill * 9973 + sh.fts[1] * 211 + sh.fts[2] * 307) % 65537
+        s0 == ((Seed % 65521) * 31 + sh.w * 1009 + sh.bpp * 4001 + sh.fill * 9973 + sh.fts[1] * 211 + sh.fts[2] * 307 + Len(alphabet)) % 65537
         rnd == LcgSeq(s0, nrow * Len(sh.fts))
-    IN [r \in 1..Len(sh.fts) |-> [i \in 1..nrow |-> Alphabet5[((rnd[(r - 1) * nrow + i] \div 7) % 5) + 1]]]
+    IN [r \in 1..Len(sh.fts) |-> [i \in 1..nrow |-> alphabet[((rnd[(r - 1) * nrow + i] \div 7) % Len(alphabet)) + 1]]]
+\* Paeth ties by construction (pixel k of a channel: above = 6k + 12): with the row below = 6k + 9 every byte after the
+\* first pixel has c = (2a + b) / 3, i.e. pa = 6 > pb = pc = 3 (the tie between b and c must go to b); with the row below
+\* = 6k every such byte has c = (a + 2b) / 3, i.e. pa = pc = 6 < pb = 12 (the tie between a and c must go to a)
+TieRows(sh) == LET n == sh.w * sh.bpp
+               IN << [i \in 1..n |-> 6 * ((i - 1) \div sh.bpp) + 12 + ((i - 1) % sh.bpp)],
+                     [i \in 1..n |-> 6 * ((i - 1) \div sh.bpp) + (IF sh.mode = "tieBC" THEN 9 ELSE 0) + ((i - 1) % sh.bpp)] >>
+PixelRows(sh) == IF sh.mode = "raw" THEN RandomRows(sh, AlphabetRaw) ELSE TieRows(sh)
+FilterImage(fts, bpp, rawRows) == [r \in 1..Len(fts) |-> FilterRow(fts[r], bpp, rawRows[r], IF r = 1 THEN <<>> ELSE rawRows[r - 1])]
 
 VARIABLES sh,      \* the shape
           filt,    \* its filtered rows
           recon    \* the reconstructed rows (computed once per case)
 
 Init == /\ sh \in Shapes
-        /\ filt = FiltBytes(sh)
+        /\ filt = IF sh.mode = "filt" THEN RandomRows(sh, Alphabet5) ELSE FilterImage(sh.fts, sh.bpp, PixelRows(sh))
         /\ recon = ReconImage(sh.fts, sh.bpp, filt)
 Next == UNCHANGED <<sh, filt, recon>>
 Spec == Init /\ [][Next]_<<sh, filt, recon>>
 
 TypeOK == /\ Len(recon) = Len(sh.fts)
           /\ \A r \in 1..Len(recon) : Len(recon[r]) = sh.w * sh.bpp /\ \A i \in 1..Len(recon[r]) : recon[r][i] \in 0..255
+\* in "raw" mode the reconstruction gives the pixels the filtered bytes were computed from
+RawRoundTrip == sh.mode # "filt" => recon = PixelRows(sh)
+\* the constructed rows really are ties, and the specification resolves them as the PNG text says
+TiesAreTies == sh.mode \in {"tieBC", "tieAC"} =>
+                 \A i \in (sh.bpp + 1)..(sh.w * sh.bpp) :
+                    LET a == recon[2][i - sh.bpp]
+                        b == recon[1][i]
+                        c == recon[1][i - sh.bpp]
+                        pa == Abs(b - c)
+                        pb == Abs(a - c)
+                        pc == Abs(a + b - 2 * c)
+                    IN IF sh.mode = "tieBC" THEN pb = pc /\ pa > pb /\ Paeth(a, b, c) = b
+                                            ELSE pa = pc /\ pa < pb /\ Paeth(a, b, c) = a
 FilterInverts == \A r \in 1..Len(recon) :
                     FilterRow(sh.fts[r], sh.bpp, recon[r], IF r = 1 THEN <<>> ELSE recon[r - 1]) = filt[r]
-Export == PrintT(ToJson([fmt |-> "pngfilter", w |-> sh.w, h |-> Len(sh.fts), bpp |-> sh.bpp, fts |-> sh.fts, fill |-> sh.fill,
+Export == PrintT(ToJson([fmt |-> "pngfilter", w |-> sh.w, h |-> Len(sh.fts), bpp |-> sh.bpp, fts |-> sh.fts, fill |-> sh.fill, mode |-> sh.mode,
                          filt |-> Flatten(filt), recon |-> Flatten(recon)]))
 =============================================================================
